@@ -6,6 +6,7 @@ import (
 	"net"
 	"net/netip"
 	"sort"
+	"strconv"
 	"strings"
 	"time"
 
@@ -499,9 +500,15 @@ func runC05(sc *C05Scenario, tr *kit.Trace) *kit.Result {
 	if !ok2 || res.Viol != nil {
 		return res
 	}
-	hits := 0
+	hits, oneApart := 0, 0
 	for i, op := range sc.Ops {
 		a, b := c05Norm(wire[i]), c05Norm(dec[i])
+		if a != b && c05TTLsWithinOne(a, b) && oneApart == 0 {
+			// once per scenario: a path that is systematically a second off shows it in every hit
+			oneApart++
+			res.Probes["ttl-one-apart-at-a-second-boundary"]++
+			b = a
+		}
 		rc := "-"
 		if wire[i] != nil && len(wire[i]) > 3 {
 			rc = fmt.Sprint(wire[i][3] & 0xf)
@@ -588,6 +595,36 @@ func shrinkC05(sc any, fails func(any) bool) any {
 }
 
 // c05NoTTL blanks the TTL column of every record line of a normalised reply.
+// c05TTLsWithinOne reports whether two normalised replies are equal except that corresponding
+// TTLs differ by at most one second. A TTL is "expiry minus now" cut to whole seconds; the two
+// runs reach the same entry a few microseconds of fake time apart (the ingress paths differ in
+// length), so an operation that lands on a second boundary shows TTLs one apart. That is the
+// resolution of the measurement, not a difference between the paths.
+func c05TTLsWithinOne(a, b string) bool {
+	if c05NoTTL(a) != c05NoTTL(b) {
+		return false
+	}
+	la, lb := strings.Split(a, "\n"), strings.Split(b, "\n")
+	if len(la) != len(lb) {
+		return false
+	}
+	for i := range la {
+		if la[i] == lb[i] {
+			continue
+		}
+		fa, fb := strings.Split(la[i], "\t"), strings.Split(lb[i], "\t")
+		if len(fa) < 4 || len(fb) < 4 {
+			return false
+		}
+		x, e1 := strconv.Atoi(fa[1])
+		y, e2 := strconv.Atoi(fb[1])
+		if e1 != nil || e2 != nil || x-y > 1 || y-x > 1 {
+			return false
+		}
+	}
+	return true
+}
+
 func c05NoTTL(norm string) string {
 	lines := strings.Split(norm, "\n")
 	for i, l := range lines {
